@@ -1,7 +1,7 @@
 (* C11 — Volume-aware simulation scales rates with volume and tracks growth and division. *)
-From Coq Require Import ZArith Reals List Bool Arith.
+From Coq Require Import ZArith Reals List Bool Arith Sorted.
 From BS Require Import Base.Arith Model.Term Model.Propensity Model.Interface Model.Rules Model.Random Model.SSA
-                       Spec.RateLaws Proofs.RateProofs Proofs.VolumeProofs.
+                       Spec.RateLaws Proofs.RateProofs Proofs.VolumeProofs Proofs.VolumeRun.
 Import ListNotations.
 Local Open Scope R_scope.
 
@@ -46,8 +46,27 @@ Proof. exact threshold_division. Qed.
 Theorem C11_state_dependent_division : forall (gr : Term.term R) dv t V dt, vol_divided ArithR (VStateDep gr dv) t V dt = true <-> dv < V.
 Proof. exact state_dependent_division. Qed.
 
-(* Not mechanised (C11_partial): the count of volume steps taken before row k (hence "within one
-   time step of the growth law") and the distributional statement for constant volume. *)
+(* Whole run with exponential growth (reals; every network incl. rules, fuel, sorted grid not before t0, positive dt,
+   uniforms in (0,1], non-negative propensities): every reported volume is V0 * exp(g dt)^j for the whole number j
+   of volume steps with  t0 + j dt <= (grid time it is reported for) <= t0 + (j+1) dt  -- the growth law to within
+   one time step; all requested times are reported unless the cell divided. *)
+Theorem C11_whole_run_growth :
+  forall (s : sim R) g dtime V0 (u : nat -> R), 0 < sm_dt s -> (forall n, 0 < u n <= 1) ->
+  (forall x p V t, 0 <= array_sum ArithR (stoch_props ArithR s StochVol x p V t)) ->
+  forall ts fuel pos st, StronglySorted Rle ts -> Forall (fun t => sm_t0 s <= t) ts ->
+  vssa_simulate ArithR fuel s (VTimeThreshold g dtime) V0 ts u pos = Done st ->
+  exists done rest, ts = done ++ rest /\
+    Forall2 (fun T v => exists j : nat, v = V0 * exp (g * sm_dt s * INR j) /\
+                         sm_t0 s + INR j * sm_dt s <= T <= sm_t0 s + INR (S j) * sm_dt s) done (vs_vols st) /\
+    (rest = [] \/ vs_divided st = true).
+Proof. exact volume_run_closed. Qed.
+(* the hypothesis on the propensities holds for every model run through the safe interface *)
+Theorem C11_safe_propensities_nonneg :
+  forall (s : sim R), sm_safe s = true -> forall x p V t, 0 <= array_sum ArithR (stoch_props ArithR s StochVol x p V t).
+Proof. exact safe_props_nonneg. Qed.
+
+(* Not mechanised (C11_partial): state-dependent growth over whole runs, and the distributional statement for
+   constant volume. *)
 
 Print Assumptions C11_iteration_volume.
 Print Assumptions C11_constant_volume.
@@ -57,3 +76,5 @@ Print Assumptions C11_growth_law.
 Print Assumptions C11_growth_positive_monotone.
 Print Assumptions C11_threshold_division.
 Print Assumptions C11_state_dependent_division.
+Print Assumptions C11_whole_run_growth.
+Print Assumptions C11_safe_propensities_nonneg.
